@@ -117,25 +117,24 @@ def count(ntags, chunks, tagset):
 
 
 def skeletons(ntags, chunks=CHUNKS, tagset=None, shard=0, nshards=1, chunk_slots=None):
-    """All skeletons with exactly `ntags` tags, in a fixed order; shard k of n
-    gets the elements whose index is k modulo n (of the *tag-tuple x first
-    chunk* index, so shards are contiguous pieces of work of equal size).
+    """All skeletons with exactly `ntags` tags, in a fixed order (tag tuples in
+    product order of `tagset`, then chunk tuples in product order).  Shard k of
+    n gets the tag tuples whose index is k modulo n, each with all chunk tuples.
 
     chunk_slots: optional per-position chunk alphabets (len ntags+1)."""
     if tagset is None:
         tagset = tags()
     slots = chunk_slots if chunk_slots is not None else [chunks] * (ntags + 1)
     assert len(slots) == ntags + 1
-    i = 0
-    for tt in itertools.product(tagset, repeat=ntags):
+    for i, tt in enumerate(itertools.product(tagset, repeat=ntags)):
+        if i % nshards != shard:
+            continue
         for cc in itertools.product(*slots):
-            if i % nshards == shard:
-                sk = [cc[0]]
-                for t, c in zip(tt, cc[1:]):
-                    sk.append(t)
-                    sk.append(c)
-                yield tuple(sk)
-            i += 1
+            sk = [cc[0]]
+            for t, c in zip(tt, cc[1:]):
+                sk.append(t)
+                sk.append(c)
+            yield tuple(sk)
 
 
 # --------------------------------------------------------------------------
